@@ -171,6 +171,9 @@ func (d SuDate) Plus(yr int, mon int, day int, hr int, min int, sec int, ms int)
 }
 
 func NormalizeDate(yr int, mon int, day int, hr int, min int, sec int, ms int) SuDate {
+	// carry the seconds so ms * 1000000 can't overflow
+	sec += ms / 1000
+	ms %= 1000
 	// use UTC to avoid timezone daylight savings issues
 	t := time.Date(yr, time.Month(mon), day, hr, min, sec, ms*1000000, time.UTC)
 	return FromGoTime(t)
